@@ -293,3 +293,5 @@ LEVEL_TEXT = ("Decides for every Rust->C error mapping: no self-recursive leaf, 
               "the deleter. These make the error projection total/one-to-one and handle release exact; trace equivalence is not decided.")
 LEVEL_NOTE = "Trusted: rustc MIR/type facts; ONTO_EXCEPTIONS rows. Not decided: behavioural equivalence of C and Rust call sequences."
 TECHNIQUE = "static analysis: switch-tree enumeration of error maps, union-arm agreement over dominated regions, drop-shape rules over sibling FFI functions"
+
+THOROUGH_UNIVERSES = []   # the C binding does not build without std; dev_permissions does not touch it
